@@ -42,6 +42,15 @@ def limits_has_quiet_NaN : Int := 1
 def limits_has_signaling_NaN : Int := 1
 def limits_has_denorm : Int := 1
 def limits_round_to_nearest : Int := 1
+def limits_is_specialized : Int := 1
+def limits_is_integer : Int := 0
+def limits_is_exact : Int := 0
+def limits_is_modulo : Int := 0
+def limits_is_bounded : Int := 0
+def limits_is_iec559 : Int := 0
+def limits_traps : Int := 1
+def limits_tinyness_before : Int := 0
+def limits_has_denorm_loss : Int := 0
 /-- binary32 pattern of `(float) HALF_DENORM_MIN` -/
 def macro_HALF_DENORM_MIN_f32 : Nat := 0x33800000
 /-- binary32 pattern of `(float) HALF_NRM_MIN` -/
